@@ -168,7 +168,18 @@ impl Response {
         self
     }
 
+    /// the chunked coding goes with the stream that announced it:
+    /// what replaces the stream is sent under its own `Content-Length`, never both (RFC 9112 6.2)
+    #[inline]
+    fn unannounce_stream(&mut self) {
+        #[cfg(feature="sse")]
+        if matches!(self.content, Content::Stream(_)) {
+            self.headers.set().TransferEncoding(None);
+        }
+    }
+
     pub fn drop_content(&mut self) -> Content {
+        self.unannounce_stream();
         let old_content = self.content.take();
         self.headers.set()
             .ContentType(None)
@@ -186,6 +197,7 @@ impl Response {
         content:      impl Into<Cow<'static, [u8]>>,
     ) {
         let content: Cow<'static, [u8]> = content.into();
+        self.unannounce_stream();
         self.headers.set()
             .ContentType(content_type)
             .ContentLength(ohkami_lib::num::itoa(content.len()));
@@ -207,6 +219,7 @@ impl Response {
     pub fn set_text<Text: Into<Cow<'static, str>>>(&mut self, text: Text) {
         let body: Cow<'static, str> = text.into();
 
+        self.unannounce_stream();
         self.headers.set()
             .ContentType("text/plain; charset=UTF-8")
             .ContentLength(ohkami_lib::num::itoa(body.len()));
@@ -224,6 +237,7 @@ impl Response {
     pub fn set_html<HTML: Into<Cow<'static, str>>>(&mut self, html: HTML) {
         let body: Cow<'static, str> = html.into();
 
+        self.unannounce_stream();
         self.headers.set()
             .ContentType("text/html; charset=UTF-8")
             .ContentLength(ohkami_lib::num::itoa(body.len()));
@@ -240,6 +254,7 @@ impl Response {
     #[inline(always)]
     pub fn set_json<JSON: serde::Serialize>(&mut self, json: JSON) {
         let body = ::serde_json::to_vec(&json).unwrap();
+        self.unannounce_stream();
         self.headers.set()
             .ContentType("application/json")
             .ContentLength(ohkami_lib::num::itoa(body.len()));
@@ -258,6 +273,7 @@ impl Response {
             Cow::Owned(string) => Cow::Owned(string.into_bytes()),
         };
 
+        self.unannounce_stream();
         self.headers.set()
             .ContentType("application/json")
             .ContentLength(ohkami_lib::num::itoa(body.len()));
